@@ -17,9 +17,9 @@ from typing import Any
 
 WORLD_OF = {
     "C01": "ctxlife",
-    "C12": "ctxlife",
+    "C12": [("ctxlife", 0.85), ("components", 0.15)],
     "C13": "ctxlife",
-    "C02": "resources",
+    "C02": [("resources", 0.85), ("components", 0.15)],
     "C03": "resources",
     "C04": "resources",
     "C18": "resources",
@@ -37,8 +37,16 @@ WORLD_OF = {
 GEN_VERSION = 1
 
 
-def world(prop: str):
-    return importlib.import_module(f"sim.worlds.{WORLD_OF[prop]}")
+def world(prop: str, name: str | None = None):
+    w = WORLD_OF[prop]
+    if name is None:
+        name = w if isinstance(w, str) else w[0][0]
+    return importlib.import_module(f"sim.worlds.{name}")
+
+
+def worlds_of(prop: str) -> list[str]:
+    w = WORLD_OF[prop]
+    return [w] if isinstance(w, str) else [x[0] for x in w]
 
 
 def run_seed(verif_seed: int, prop: str, tier: str, index: int) -> int:
@@ -47,9 +55,21 @@ def run_seed(verif_seed: int, prop: str, tier: str, index: int) -> int:
 
 
 def make_plan(verif_seed: int, prop: str, tier: str, index: int) -> dict:
-    w = world(prop)
     rs = run_seed(verif_seed, prop, tier, index)
-    plan = w.gen(random.Random(rs), tier, prop)
+    rng = random.Random(rs)
+    wspec = WORLD_OF[prop]
+    if isinstance(wspec, str):
+        w = world(prop)
+    else:
+        r = rng.random() * sum(x[1] for x in wspec)
+        name = wspec[-1][0]
+        for nm, wt in wspec:
+            r -= wt
+            if r <= 0:
+                name = nm
+                break
+        w = world(prop, name)
+    plan = w.gen(rng, tier, prop)
     plan["property"] = prop
     plan["_prov"] = {"verif_seed": verif_seed, "index": index, "tier": tier, "run_seed": rs, "gen": GEN_VERSION}
     return plan
